@@ -106,17 +106,18 @@ def build(seed):
     for form in rng.sample(["scalar", "array", "assumed"], rng.randint(1, 2)):
         v = nm("hq")
         ln = 4000 + rng.randint(1, 900)
+        # (shown as written, or as the equivalent length parameter of the type)
         if form == "scalar":
             L.append(f"character :: {v}*{ln}")
-            frag = f"{v}*{ln}"
+            frag, alt = f"{v}*{ln}", (f"character(len={ln})", v)
         elif form == "array":
             L.append(f"character :: {v}(2)*{ln}")
-            frag = f"{v}(2)*{ln}"
+            frag, alt = f"{v}(2)*{ln}", (f"character(len={ln})", f"{v}(2)")
         else:
             L.append(f"character(len=2), parameter :: {v}*(*) = 'ab'")
-            frag = f"{v}*(*)"
+            frag, alt = f"{v}*(*)", ("character(len=*)", v)
         L.append(f"!! doc of {v}")
-        checks.append({"page": mpage, "fragment": frag, "where": "entity_char_length"})
+        checks.append({"page": mpage, "fragment": frag, "or": alt, "where": "entity_char_length"})
     # a derived type with hostile component defaults
     t = nm("ht")
     L += [f"type :: {t}", "!! type doc"]
@@ -323,6 +324,8 @@ def case(seed):
                 shown = collapse(frag) in collapse(t)
             else:
                 shown = squeeze(frag) in squeeze(t)
+                if not shown and c.get("or") is not None:  # (type text, entity text): the entity follows its type within the same table row
+                    shown = re.search(re.escape(squeeze(c["or"][0])) + r".{0,60}?" + re.escape(squeeze(c["or"][1])) + r"(?!\d)", squeeze(t)) is not None
             if not shown:
                 hostile_chars = sorted({ch for ch in frag if ch in MAP})
                 kf = {"kind": "declaration_text_not_shown_verbatim", "where": c["where"], "has_backslash": "\\" in frag, "has_repeated_blanks": "  " in frag,
